@@ -27,7 +27,7 @@ TRUSTED = ["clang 14 front end + CFG builder", "tool/lcbfacts.cc", "rules/r_stri
 
 
 def specs():
-    return [common.src_unit(INI_C)]
+    return [common.src_unit(INI_C), common.os_portable_unit()]
 
 
 def need(u, name):
@@ -443,6 +443,50 @@ def realloc_contract(rep, u):
     return 1
 
 
+def reallocarray_contract(rep, u, fname=None):
+    """the replacement reallocarray() of al/os.h (platforms without one): for boundary values of (nmemb, size) it fails
+    without calling realloc exactly when nmemb * size does not fit size_t, and otherwise asks realloc for the exact product
+    (1 for an empty request).  realloc_items hands it count + block and the item size."""
+    fname = fname or common.OS_PORTABLE_PREFIX + "reallocarray"
+    fn = need(u, fname)
+    rep.functions.add(fn.name)
+    W = 1 << 64
+    vals = [0, 1, 2, 3, 8, 1 << 16, 1 << 31, (1 << 32) - 1, 1 << 32, (1 << 32) + 1, 1 << 33, 1 << 62, 1 << 63, (1 << 63) + 1, W - 1, W // 3 + 1]
+    bad = undec = None
+    n = 0
+    for nm, sz in itertools.product(vals, vals):
+        pe = r_stride.PE(u, call_default={"realloc": 0x9000})
+        pe.wrap = True
+        ev, ret = pe.trace(fn, {fn.params[0]["n"]: 0x100, fn.params[1]["n"]: nm, fn.params[2]["n"]: sz})
+        n += 1
+        if isinstance(ret, str):
+            undec = undec or "nmemb=%#x size=%#x: %s" % (nm, sz, ret)
+            continue
+        asked = None
+        for e, b in ev:
+            for x, _ in walk(e):
+                if x.get("k") == "call" and x.get("fn") == "realloc":
+                    vs = pe.evals(x["args"][1], b, 0)
+                    asked = vs[0][0] if len(vs) == 1 else "?"
+        exact = nm * sz
+        if exact >= W:
+            if asked is not None or ret != 0:
+                bad = bad or "nmemb=%#x size=%#x overflow size_t, yet realloc is asked for %s bytes: the caller then stores %#x items into it" % (nm, sz, asked, nm)
+        else:
+            if asked is None:
+                bad = bad or "nmemb=%#x size=%#x (product %#x fits) is refused" % (nm, sz, exact)
+            elif asked != max(exact, 1):
+                bad = bad or "nmemb=%#x size=%#x: realloc is asked for %s bytes instead of %#x" % (nm, sz, asked, exact)
+    desc = "the replacement reallocarray refuses exactly the products that overflow size_t and otherwise allocates the exact product"
+    if bad:
+        rep.violated("R-CONTRACT", fn, "reallocarray-overflow", desc, bad)
+    elif undec:
+        rep.undecided("R-CONTRACT", fn, "reallocarray-overflow", desc, undec)
+    else:
+        rep.proved("R-CONTRACT", fn, "reallocarray-overflow", desc, "%d boundary pairs, unsigned arithmetic modulo 2^64" % n)
+    return n
+
+
 # ------------------------------------------------------------------ R-DOM stores at lines[lines_count]
 
 def slot_dominance(rep, u):
@@ -665,6 +709,7 @@ def run(rep, tier):
     ns = case_siblings(rep, u)
     rep.floor("case-sensitive / -insensitive pairs", ns, 5)
     n += realloc_contract(rep, u)
+    rep.floor("reallocarray boundary pairs", reallocarray_contract(rep, us[common.OS_PORTABLE]), 256)
     nd = slot_dominance(rep, u)
     rep.floor("slot stores and reservations", nd, 6)
     no = own_rule(rep, u)
